@@ -70,6 +70,10 @@ func init() {
 }
 
 func GenericRegister[T any](key string) error {
+	if key == "" {
+		// the encoded form tells a registered value from a container by its non-empty type name
+		return fmt.Errorf("a type cannot be registered under an empty key")
+	}
 	t := reflect.TypeOf((*T)(nil)).Elem()
 	for t.Kind() == reflect.Ptr {
 		t = t.Elem()
